@@ -78,6 +78,9 @@ func pollute(root string, kind string, n int) error {
 		return os.WriteFile(filepath.Join(aad, "stale-profile"), []byte("abi <abi/4.0>,\nprofile stale-profile {\n}\n"), 0o644)
 	case "junk-dir":
 		d := filepath.Join(aad, "groups", "stale")
+		if st, err := os.Lstat(filepath.Join(aad, "groups")); err == nil && !st.IsDir() {
+			os.Remove(filepath.Join(aad, "groups"))
+		}
 		if err := os.MkdirAll(d, 0o755); err != nil {
 			return err
 		}
